@@ -11,6 +11,17 @@
  *                               reqbody_queue.bytes_in preset        -> err <status> | ok te=<n> in=<n> rest=<n> len=<n>
  *  ck2 <hex>                    http_chunk_decode_append_mem(): one call on fresh state
  *                                                                     -> err | ok te=<n> out=<n> done=<0|1>
+ *  gwd <maxfield> <prefix> <unit> <count> <suffix>
+ *  gws <maxfield> <seg> [<seg> ...]
+ *                               http_chunk_decode_append_mem() once per read on ONE decoder state (gwd: reads =
+ *                               prefix, then <count> times unit, then suffix; empty pieces skipped); stops at the
+ *                               first -1; prints the state after the last successful read and the largest
+ *                               gw_dechunk->b length seen after any read (maxh) / while it held no LF (maxp)
+ *                               -> rc=<0|-1> n=<reads ok> te=<n> h=<len> done=<0|1> out=<n> maxh=<n> maxp=<n>
+ *  h1d <ms_kB> <maxfield> <prefix> <unit> <count> <suffix>
+ *                               h1_chunked() after every read appended to the read queue; maxrest = largest number
+ *                               of unconsumed bytes left in the read queue after any call
+ *                               -> err <status> n=<reads> maxrest=<n> | ok te=<n> in=<n> rest=<n> len=<n> n=<reads> maxrest=<n>
  *  hoff <hoff0> <hex>           http_header_parse_hoff() on a heap hoff[8192] (sentinel filled)
  *                                                                     -> <hlen> <hoff0> <maxidx> <fnv32 of hoff[0..maxidx]> <tail clean|dirty>
  *  rng <len> <hex>              http_range_parse() (text after "bytes=") on an exact-size heap ranges[RMAX*2]
@@ -101,6 +112,17 @@ static uint32_t fnv16(const unsigned short *a, size_t n) {
 
 static unsigned long long tok_u64(const char *s) { return strtoull(s, NULL, 10); }
 
+/* the reads of a dribble case: prefix, count x unit, suffix (empty pieces skipped) */
+struct ltv_reads { unsigned char *p[3]; size_t n[3]; unsigned long count; };
+static size_t reads_total(const struct ltv_reads *rd) {
+    return (rd->n[0] ? 1 : 0) + (rd->n[1] ? rd->count : 0) + (rd->n[2] ? 1 : 0);
+}
+static const unsigned char *reads_get(const struct ltv_reads *rd, size_t i, size_t *len) {
+    if (rd->n[0]) { if (i == 0) { *len = rd->n[0]; return rd->p[0]; } --i; }
+    if (rd->n[1]) { if (i < rd->count) { *len = rd->n[1]; return rd->p[1]; } i -= rd->count; }
+    *len = rd->n[2]; return rd->p[2];
+}
+
 int main(void) {
     struct sigaction sa; memset(&sa, 0, sizeof(sa));
     sa.sa_handler = on_abort; sa.sa_flags = SA_NODEFER;
@@ -174,6 +196,83 @@ int main(void) {
             free(v);
             free(dc.b.ptr);
             r->gw_dechunk = NULL;
+        }
+        else if ((0 == strcmp(op, "gwd") && ltv_ntok == 6) || (0 == strcmp(op, "gws") && ltv_ntok >= 3)) {
+            const int drip = (op[2] == 'd');
+            response_dechunk dc; memset(&dc, 0, sizeof(dc));
+            r->gw_dechunk = &dc;
+            r->resp_send_chunked = 0;
+            r->resp_body_finished = 0;
+            r->http_status = 200;
+            r->conf.max_request_field_size = (unsigned int)tok_u64(ltv_tok[1]);
+            chunkqueue_reset(&r->write_queue);
+            r->write_queue.bytes_in = r->write_queue.bytes_out = 0;
+            struct ltv_reads rd; memset(&rd, 0, sizeof(rd));
+            size_t nreads;
+            if (drip) {
+                rd.p[0] = ltv_unhex(ltv_tok[2], &rd.n[0]);
+                rd.p[1] = ltv_unhex(ltv_tok[3], &rd.n[1]);
+                rd.count = strtoul(ltv_tok[4], NULL, 10);
+                rd.p[2] = ltv_unhex(ltv_tok[5], &rd.n[2]);
+                nreads = reads_total(&rd);
+            }
+            else nreads = (size_t)(ltv_ntok - 2);
+            long long s_te = 0, s_out = 0; unsigned s_h = 0, maxh = 0, maxp = 0; int s_done = 0, rc = 0;
+            size_t k = 0;
+            for (; k < nreads; ++k) {
+                size_t n; const unsigned char *src; unsigned char *tmp = NULL;
+                if (drip) src = reads_get(&rd, k, &n);
+                else { tmp = ltv_unhex(ltv_tok[2 + k], &n); src = tmp; }
+                unsigned char *v = exact(src, n);
+                free(tmp);
+                rc = n ? http_chunk_decode_append_mem(r, (char *)v, n) : 0;
+                free(v);
+                if (rc != 0) break;
+                s_te = (long long)dc.gw_chunked; s_out = (long long)r->write_queue.bytes_in;
+                s_h = buffer_clen(&dc.b); s_done = dc.done ? 1 : 0;
+                if (s_h > maxh) maxh = s_h;
+                if (s_h > maxp && (0 == s_h || NULL == memchr(dc.b.ptr, '\n', s_h))) maxp = s_h;
+            }
+            printf("rc=%d n=%zu te=%lld h=%u done=%d out=%lld maxh=%u maxp=%u\n", rc ? -1 : 0, k, s_te, s_h,
+                   s_done, s_out, maxh, maxp);
+            if (drip) { free(rd.p[0]); free(rd.p[1]); free(rd.p[2]); }
+            free(dc.b.ptr);
+            r->gw_dechunk = NULL;
+        }
+        else if (0 == strcmp(op, "h1d") && ltv_ntok == 7) {
+            r->conf.max_request_size = (unsigned int)tok_u64(ltv_tok[1]);
+            r->conf.max_request_field_size = (unsigned int)tok_u64(ltv_tok[2]);
+            r->x.h1.te_chunked = 0;
+            r->reqbody_length = -1;
+            r->keep_alive = 1;
+            r->http_status = 0;
+            r->resp_header_len = 0;
+            chunkqueue_reset(&r->read_queue);
+            chunkqueue_reset(&r->reqbody_queue);
+            r->read_queue.bytes_in = r->read_queue.bytes_out = 0;
+            r->reqbody_queue.bytes_in = r->reqbody_queue.bytes_out = 0;
+            struct ltv_reads rd; memset(&rd, 0, sizeof(rd));
+            rd.p[0] = ltv_unhex(ltv_tok[3], &rd.n[0]);
+            rd.p[1] = ltv_unhex(ltv_tok[4], &rd.n[1]);
+            rd.count = strtoul(ltv_tok[5], NULL, 10);
+            rd.p[2] = ltv_unhex(ltv_tok[6], &rd.n[2]);
+            const size_t nreads = reads_total(&rd);
+            long long maxrest = 0; int err = 0; size_t k = 0;
+            for (; k < nreads && r->reqbody_length < 0; ++k) {
+                size_t n; const unsigned char *src = reads_get(&rd, k, &n);
+                chunkqueue_append_mem(&r->read_queue, (const char *)src, n);
+                chunkqueue_remove_finished_chunks(&r->read_queue);
+                handler_t hrc = h1_chunked(r, &r->read_queue, &r->reqbody_queue);
+                if (hrc != HANDLER_GO_ON) { err = r->http_status ? r->http_status : 599; ++k; break; }
+                chunkqueue_remove_finished_chunks(&r->read_queue);
+                if (r->reqbody_length < 0 && chunkqueue_length(&r->read_queue) > maxrest)
+                    maxrest = chunkqueue_length(&r->read_queue);
+            }
+            if (err) printf("err %d n=%zu maxrest=%lld\n", err, k, maxrest);
+            else printf("ok te=%lld in=%lld rest=%lld len=%lld n=%zu maxrest=%lld\n", (long long)r->x.h1.te_chunked,
+                        (long long)r->reqbody_queue.bytes_in, (long long)chunkqueue_length(&r->read_queue),
+                        (long long)r->reqbody_length, k, maxrest);
+            free(rd.p[0]); free(rd.p[1]); free(rd.p[2]);
         }
         else if (0 == strcmp(op, "hoff") && ltv_ntok == 3) {
             size_t n; unsigned char *t = ltv_unhex(ltv_tok[2], &n);
